@@ -160,10 +160,28 @@ pub fn probe(out: &mut Out, rx: &mut Rx<DefaultCrc>, rng: &mut Rng, pdu_size: us
     let label: Vec<u8> = if rng.chance(1, 2) { vec![9, 8, 7, 6, 5, 4] } else { vec![7, 7, 1] };
     let c = complete(&pdu, &label, false, 0x0800).ser();
     feed(out, rx, &c, vec![("probe", "true".into())]);
+    // "a fresh valid transfer on any fragment id and label kind": the fragmented PDU goes to the same label
+    // written in full, to the same label by re-use (valid: the complete packet just before carried it), to
+    // another label or to everybody; its first fragment is short, or as full as it can be, or carries the whole
+    // PDU (end packet = CRC only)
     let n2 = rng.range(2, pdu_size.min(48).max(2));
     let pdu2 = rng.bytes(n2);
-    let cuts = [rng.range(0, n2 / 2), rng.range(1, n2 / 2 + 1)];
-    for p in train(&pdu2, &label, false, 0x86DD, id, &cuts) {
+    let (label2, reuse): (Vec<u8>, bool) = match rng.below(6) {
+        0 | 1 => (label.clone(), true),
+        2 => (vec![], false),
+        3 => (vec![0xA1, 0xB2, 0xC3, 0xD4, 0xE5, 0xF6], false),
+        _ => (label.clone(), false),
+    };
+    let cuts: Vec<usize> = match rng.below(4) {
+        0 => vec![n2 - rng.range(1, 7).min(n2)],
+        1 => vec![n2],
+        2 => vec![rng.range(0, n2 / 2), n2],
+        _ => vec![rng.range(0, n2 / 2), rng.range(1, n2 / 2 + 1)],
+    };
+    for p in train(&pdu2, &label2, reuse, 0x86DD, id, &cuts) {
+        if p.kind == 0 && p.payload.is_empty() {
+            continue; // an intermediate fragment without payload is not well formed
+        }
         feed(out, rx, &p.ser(), vec![("probe", "true".into())]);
     }
 }
